@@ -74,6 +74,7 @@ RULE = ("case 0: exhaustive bends() over offsets {-2..2}^2 minus origin x 4 x 4 
 TRUSTED_BASE = ["Lean 4.33 kernel", "axioms: propext, Classical.choice, Quot.sound",
                 "cpp2lean translator + clang AST (bends(), direction helpers, estimatedCostSpecific, ANodeCmp, orthogTurnOrder, Dot, CrossLength regenerated each run, bridge lemmas to the model; cross-checked by the correspondence)",
                 "hand model of cost() (atan2-based bend classification), of the search loop and of the pathNext read-back: tied by exact correspondence only (route() = model route on every scene; cost() and ANodeCmp called directly)",
+                "hand model of the orthogonal visibility graph builder (Model/OrthVis): tied by exact correspondence on every scene with a graph dump (edge set, edge weights, orthogVisPropFlags, graph joined at crossings); LineSegment::overlaps regenerated and bridged (Props/C05OrthVisTie)",
                 "harness (scene generator, line writer) + hex-float import",
                 "Lean compiler for the driver (Check.Hanan.checkCert, Model.Bends, Model.AStar run compiled)",
                 "Hanan-grid fact: some optimal orthogonal path lies on the grid of obstacle sides and endpoint coordinates",
